@@ -37,6 +37,8 @@ var (
 	caKey  *ecdsa.PrivateKey
 	caCert *x509.Certificate
 	caPEM  []byte
+	// the trust-anchor bundle grows when the issuer adds a root: version i is caPEM followed by i further roots
+	anchorVers [][]byte
 )
 
 func initCA() {
@@ -49,9 +51,23 @@ func initCA() {
 	der, _ := x509.CreateCertificate(rand.Reader, tmpl, tmpl, &caKey.PublicKey, caKey)
 	caCert, _ = x509.ParseCertificate(der)
 	caPEM, _ = kitpem.EncodeX509(caCert)
+	anchorVers = [][]byte{caPEM}
+	for i := 0; i < 4; i++ {
+		k, _ := ecdsa.GenerateKey(elliptic.P256(), rand.Reader)
+		t2 := *tmpl
+		t2.SerialNumber = big.NewInt(int64(2 + i))
+		t2.Subject = pkix.Name{CommonName: fmt.Sprintf("verif-ca-%d", 2+i)}
+		d2, _ := x509.CreateCertificate(rand.Reader, &t2, &t2, &k.PublicKey, k)
+		c2, _ := x509.ParseCertificate(d2)
+		p2, _ := kitpem.EncodeX509(c2)
+		anchorVers = append(anchorVers, append(append([]byte{}, anchorVers[i]...), p2...))
+	}
 }
 
-type anchors struct{ fail bool }
+type anchors struct {
+	fail bool
+	cur  int // index into anchorVers: what the trust-anchor source holds right now
+}
 
 func (a *anchors) GetX509BundleForTrustDomain(td spiffeid.TrustDomain) (*x509bundle.Bundle, error) {
 	return x509bundle.FromX509Authorities(td, []*x509.Certificate{caCert}), nil
@@ -60,7 +76,7 @@ func (a *anchors) CurrentTrustAnchors(ctx context.Context) ([]byte, error) {
 	if a.fail {
 		return nil, errors.New("trust anchors unavailable")
 	}
-	return caPEM, nil
+	return anchorVers[a.cur], nil
 }
 func (a *anchors) Watch(ctx context.Context, ch chan<- []byte) {}
 func (a *anchors) Run(ctx context.Context) error               { return nil }
@@ -84,6 +100,7 @@ type issue struct {
 	serial             int64
 	renew              time.Time // half-life of the issued certificate
 	diskFailed         bool      // an injected disk error made this fetch fail after the issuer answered
+	anchorVer          int       // the trust anchors current when the issuer answered
 }
 
 func (is *issue) good() bool { return is.ok && !is.diskFailed }
@@ -190,8 +207,22 @@ func body(s *simrt.Sim, tier string) {
 		if eq, _ := kitpem.PublicKeysEqual(key.Public(), chain[0].PublicKey); !eq {
 			s.Fail("identity-files-mixed", where+": key.pem does not belong to cert.pem (files of two different fetches are mixed)")
 		}
-		if !bytes.Equal(got["ca.pem"], caPEM) {
-			s.Fail("identity-files-ca", where+": ca.pem differs from the current trust anchors")
+		ver := -1
+		for i, v := range anchorVers {
+			if bytes.Equal(got["ca.pem"], v) {
+				ver = i
+			}
+		}
+		if ver < 0 {
+			s.Fail("identity-files-ca", where+": ca.pem is not a trust-anchor bundle the source ever held")
+			return
+		}
+		// the set is published after the issuer answered: its ca.pem is what the trust-anchor source
+		// held at some moment since then, never a bundle that was replaced while the request was in flight
+		for _, is := range issues {
+			if is.ok && chain[0].SerialNumber.Int64() == is.serial && ver < is.anchorVer {
+				s.Fail("identity-files-stale-anchors", fmt.Sprintf("%s: cert.pem is the certificate of fetch #%d, but ca.pem is trust-anchor bundle v%d, replaced by v%d before the issuer answered that fetch", where, is.n, ver, is.anchorVer))
+			}
 		}
 	}
 
@@ -216,6 +247,13 @@ func body(s *simrt.Sim, tier string) {
 		seenKeys[string(pk)] = true
 		s.Logf("issuer request #%d at %v plan %+v", is.n, time.Now().Format("15:04:05"), p)
 		s.Sleep(time.Duration(1+s.Choose(20, "latency")) * time.Millisecond) // network round trip: time passes during every fetch
+		if target != nil && ta.cur < len(anchorVers)-1 && s.Choose(4, "anchors.rotate") == 0 {
+			// the issuer adds a root while the request is in flight; the source is updated before the answer arrives
+			ta.cur++
+			s.Fault("anchors.rotate")
+			s.Sleep(time.Millisecond)
+		}
+		is.anchorVer = ta.cur
 		if hook != nil {
 			hook.failAt, hook.step, hook.cur = -1, 0, is
 			if p.disk > 0 && p.fail == 0 {
